@@ -468,10 +468,10 @@ def c_case(res):
             return f"({c_ds(d)}, Some {c_ds(v[1])})"
         return f"({c_ds(d)}, None)"
     return (f"({c_job(res['spec'], cl.key, cl.none_ds)}, {c_env(res['spec'])}, " + clist(res["rounds"], c_round) +
-            f", {cbool(res['outcome'] == 'ok')}, " + clist(outs, c_out) + ")")
+            f", {cbool(res['outcome'] == 'ok')}, " + clist(outs, c_out) + f", {cbool(res['mode'] in ('fifo', 'batchy'))})")
 
 
-CHECKER = "(fun c : job * env * list round * bool * list (ds * option ds) => let '(J, E, rs, ended, outs) := c in check_trace J E rs ended outs)"
+CHECKER = "(fun c : job * env * list round * bool * list (ds * option ds) * bool => let '(J, E, rs, ended, outs, strict) := c in check_trace strict J E rs ended outs)"
 
 
 # ----------------------------------------------------------------------------- family runner
@@ -483,7 +483,7 @@ SIGS = {
             "purge-with-fetch-pending-from-host", "transmit-from-host-without-dataset", "transmit-from-host-being-purged",
             "fetch-from-host-without-dataset", "fetch-from-host-being-purged", "transfer-source-lost-dataset", "fetch-source-lost-dataset",
             "purged-dataset-needed-again"},
-    "C01": {"task-read-wrong-bytes", "shm-key-collision", "wrong-output-value", "requested-output-missing"},
+    "C01": {"task-read-wrong-bytes", "shm-key-collision", "wrong-output-value", "requested-output-missing", "raised"},
 }
 REORDER_FINDING = "reordered-publications"   # open finding of C03: see known_findings.json
 
@@ -519,7 +519,10 @@ def case_json(res):
     return {"spec": res["spec"], "seed": res["seed"], "mode": res["mode"]}
 
 
-def run_family(ctx, res, pid, n, modes=("fifo", "batchy", "shuffle", "newest"), max_tasks=10, coq_every=1, gen=gen_spec, extra=None):
+NONE_FINDING = "none-valued-requested-output"   # open finding of C03
+
+
+def run_family(ctx, res, pid, n, modes=("fifo", "batchy", "shuffle", "newest"), max_tasks=10, coq_every=1, gen=gen_spec, extra=None, runner=None):
     """generate n (spec, seed, mode) cases, run the real controller, apply the oracles of `pid`, replay in Coq"""
     from common import coq_results, coq_print
     rng = ctx.sub_rng("cases")
@@ -529,7 +532,7 @@ def run_family(ctx, res, pid, n, modes=("fifo", "batchy", "shuffle", "newest"), 
         spec = gen(rng, max_tasks=max_tasks)
         mode = modes[i % len(modes)]
         seed = rng.randrange(2**31)
-        r = run_case(spec, seed, mode)
+        r = (runner or run_case)(spec, seed, mode)
         res.evaluations += 1
         res.count(f"mode:{mode}")
         res.count(f"tasks:{len(spec['tasks'])}")
@@ -543,12 +546,15 @@ def run_family(ctx, res, pid, n, modes=("fifo", "batchy", "shuffle", "newest"), 
         reorder_case = not in_order(r)
         for sig, what in problems:
             if pid == "C03" or sig in sigs:
-                if sig in ("premature-exit", "task-never-dispatched", "requested-output-missing", "spin", "deadlock") and reorder_case:
+                none_ext = {tuple(d) for d in spec["ext"]} & {(k, o) for k, t in enumerate(spec["tasks"]) for o in t.get("none", [])}
+                if sig in ("deadlock", "spin") and none_ext:
+                    sig2 = NONE_FINDING      # known finding: None is the "not fetched yet" sentinel
+                elif sig in ("premature-exit", "task-never-dispatched", "requested-output-missing", "spin", "deadlock") and reorder_case:
                     sig2 = REORDER_FINDING   # known finding: completion inferred from the key-sorted last output
                 else:
                     sig2 = sig
-                if pid != "C03" and sig2 == REORDER_FINDING:
-                    continue   # belongs to C03's finding, not to this property
+                if pid != "C03" and sig2 in (REORDER_FINDING, NONE_FINDING):
+                    continue   # belongs to C03's findings, not to this property
                 res.fail(sig2, what, cj)
         if extra:
             extra(r, res, cj)
@@ -564,7 +570,7 @@ def run_family(ctx, res, pid, n, modes=("fifo", "batchy", "shuffle", "newest"), 
         if ok is not True:
             why = ""
             if ok is False:
-                why = coq_print(pid, HEADER, "let '(J, E, rs, ended, outs) := " + term + " in dbg_trace J E rs ended outs")[-700:]
+                why = coq_print(pid, HEADER, "let '(J, E, rs, ended, outs, strict) := " + term + " in dbg_trace strict J E rs ended outs")[-700:]
             res.disagree("Coq model of the controller rejects a trace of the real cascade.controller.impl.run: " + (why or (logs[0][-400:] if logs else "")), cj)
             break
     return res
